@@ -27,6 +27,7 @@ EXPLANATION = (
     ' (D7) the both-side relabelling returns the given vector or its complete negation.'
     ' (D8) the completion used by single_impute comes from SyntheticRuleMatcher.match() only; (D9) the ban list is canonicalised outside any handler that swallows the failure.'
     ' (D10) every placeholder exchange of reduction_oxidation_rules_modify conserves each element and the charge as polynomials in the number of removed components (multiplicities read off the code, floor division only under a divisibility guard, literal compositions folded). (D11) the id the rule-based stage indexes the batch with is the row position (shared with C06-B2).'
+    ' (D12) the computed imbalance is not shadowed by keys the row already carries (shared with C04-G12).'
 )
 ASSUMPTIONS = [
     "RDKit parses the table literals as the pipeline's own RDKit does (same interpreter)",
